@@ -1411,6 +1411,29 @@ pub fn c03_run(seed: u64, i: u64, tier: Tier, mon: &mut Mon, found: &mut Vec<Fou
         mon.count("scenarios");
         return;
     }
+    // Another residue class walks through the inputs of three bytes, one block of
+    // 256 (a fixed two-byte prefix, every third byte) per run index. The thorough
+    // tier runs all 65536 blocks; the quick tier every sixteenth block, the
+    // residue chosen by VERIF_SEED, so that sixteen seeds cover the space. Each
+    // input is drained once, under a drawn source and iteration style.
+    let blocks = if tier == Tier::Thorough { 65536 } else { 4096 };
+    if i % 12 == 6 && (i / 12) < blocks {
+        let n = if tier == Tier::Thorough { (i / 12) as usize } else { ((i / 12) * 16 + seed % 16) as usize };
+        let opts_ix = if rng.chance(1, 2) { rng.below(u64::from(opts::N_PARSE)) as u32 } else { opts::draw_parse(&mut rng) };
+        mon.opts_seen(opts_ix);
+        for b in 0..=255u8 {
+            let input = vec![(n >> 8) as u8, (n & 0xFF) as u8, b];
+            let valid = std::str::from_utf8(&input).is_ok();
+            let source = draw_source(&mut rng, input.len(), valid, 0);
+            let drain = *rng.pick(&[Op::NextValue, Op::NextDatum, Op::ValueIterNext, Op::DatumIterNext, Op::IteratorNext]);
+            let case = HistCase { opts: opts_ix, source, workload: Workload::Any { input }, ops: vec![], then_drain: Some(drain) };
+            run_and_collect(case, mon, found);
+        }
+        mon.tiny3_block(n);
+        mon.add("c03.enumerated_len3_inputs", 256);
+        mon.count("scenarios");
+        return;
+    }
     let family = rng.below(100);
     match family {
         0..=79 => {
